@@ -1144,6 +1144,38 @@ def check_dedicated(ts, rts, acc, case, full, site_only=False, ld_only=False):
                         msg, nt1 = mismatch(got, e)
                         nt = nt or nt1
                         msgs.append(msg)
+                    # explicit time windows: the per-node counts binned by node time (first breakpoint at 0, or
+                    # above some of the nodes: those coalescences are then outside every bin)
+                    if not pn:
+                        tms = sorted(set(rts.times))
+                        mids = [(a_ + b_) / 2 for a_, b_ in zip(tms, tms[1:])]
+                        tws = [[0.0, math.inf]] + [[x_, math.inf] for x_ in mids[:2]]
+                        if mids:
+                            tws.append([0.0, mids[0], math.inf])
+                        if len(mids) >= 2:
+                            tws.append([mids[0], mids[-1], math.inf])
+                        for tw in tws:
+                            try:
+                                gt = np.asarray(ts.pair_coalescence_counts(
+                                    SS, indexes=idx, windows=w, span_normalise=sn, pair_normalise=pn,
+                                    time_windows=np.array(tw)), dtype=float)
+                            except Exception as e:  # noqa
+                                acc.fail("paircoal:time_windows:exception", f"{what} time_windows={tw} raised {e!r}", case)
+                                continue
+                            oks = []
+                            for cap in (False, True):
+                                e = to_arr(RS.pair_coalescence_counts(rts, SS, idx, W, sn, pn, cap))
+                                binned = np.zeros(e.shape[:-1] + (len(tw) - 1,))
+                                for u_, t_ in enumerate(rts.times):
+                                    for b_ in range(len(tw) - 1):
+                                        if tw[b_] <= t_ < tw[b_ + 1]:
+                                            binned[..., b_] += np.nan_to_num(e[..., u_], nan=0.0) if False else e[..., u_]
+                                if w is None:
+                                    binned = binned[0]
+                                oks.append(mismatch(gt, binned)[0])
+                            acc.ev(1, nt)
+                            if all(oks) and not all(msgs):
+                                acc.fail("paircoal:time_windows", f"{what} time_windows={tw}: {oks[0]}", case)
                     acc.ev(1, nt)
                     if all(msgs):
                         key = "paircoal:value"
@@ -1261,6 +1293,49 @@ def ldhist_bases(full):
             yield {"sets": [list(x) for x in sets], "pats": [list(x) for x in pats]}, None
 
 
+def check_paircoal_time_windows(ts, rts, acc, case):
+    """pair_coalescence_counts with explicit time windows = the per-node counts binned by node time, on
+    genealogies whose topology changes above a persisting young node, for window lists of 1..6 windows."""
+    np = np_()
+    L = rts.L
+    tms = sorted(set(rts.times))
+    mids = [(a + b) / 2 for a, b in zip(tms, tms[1:])]
+    tws = [[0.0, math.inf]] + [[x, math.inf] for x in mids] + [[0.0, mids[0], math.inf], [mids[0], mids[-1], math.inf]]
+    bps = sorted({l for l, _ in rts.intervals()} | {L})
+    wlists = [None, [0.0, L], bps, sorted(set(bps) | {(a + b) / 2 for a, b in zip(bps, bps[1:])})]
+    S = rts.samples
+    for SS, idx in (([S], [(0, 0)]), ([S[:2], S[2:]], [(0, 1), (0, 0), (1, 1)])):
+        for w in wlists:
+            W = RS.parse_windows(rts, w)
+            for sn in (False, True):
+                refs = [to_arr(RS.pair_coalescence_counts(rts, SS, idx, W, sn, False, cap)) for cap in (False, True)]
+                for tw in tws:
+                    what = f"pair_coalescence_counts({SS}, indexes={idx}, windows={w}, span_normalise={sn}, time_windows={tw})"
+                    try:
+                        got = np.asarray(ts.pair_coalescence_counts(SS, indexes=idx, windows=w, span_normalise=sn,
+                                                                    time_windows=np.array(tw)), dtype=float)
+                    except Exception as e:  # noqa
+                        acc.ev(1, False)
+                        acc.fail("paircoal:time_windows:exception", f"{what} raised {e!r}", case)
+                        continue
+                    msgs = []
+                    nt = False
+                    for e in refs:
+                        binned = np.zeros(e.shape[:-1] + (len(tw) - 1,))
+                        for u, t in enumerate(rts.times):
+                            for b in range(len(tw) - 1):
+                                if tw[b] <= t < tw[b + 1]:
+                                    binned[..., b] += e[..., u]
+                        if w is None:
+                            binned = binned[0]
+                        m, nt1 = mismatch(got, binned)
+                        msgs.append(m)
+                        nt = nt or nt1
+                    acc.ev(1, nt)
+                    if all(msgs):
+                        acc.fail("paircoal:time_windows", f"{what}: {msgs[0]}", case)
+
+
 def check_ldhist(desc, tc, acc):
     tc = ldhist_tables([tuple(x) for x in desc["sets"]], [tuple(x) for x in desc["pats"]])
     case = {"part": "ldhist", "desc": desc}
@@ -1271,6 +1346,7 @@ def check_ldhist(desc, tc, acc):
         raise RuntimeError(f"harness: ldhist base does not load: {e!r}")
     rts = RefTS.from_tables(tc)
     check_ld_histories(ts, rts, acc, case)
+    check_paircoal_time_windows(ts, rts, acc, case)
 
 
 # ====================================================================== part: tree distances
